@@ -4,10 +4,12 @@
    intersect_lines / intersect_2d_lines are the routines WITH the repairs of fixes/C18-intersect-*.diff (applied to
    /repo as fix: commits; see model/M_line.v).
    Spec vocabulary (v0, line_pt, on_line, on_line2, parallel2) lives in model/M_line_spec.v.
-   Not visible to any real-number theorem: overflow / underflow of the squared norm of a direction vector in binary64
-   (|direction| outside about [1e-150, 1e150]); that part of "any non-zero length" is judged by the correspondence and
-   the oracle on the proj_*_extreme stream (known finding projection_direction_overflow, repair proposed in
-   fixes/C18-projection-extreme-lengths.diff). *)
+   project_point_to_line is modelled WITHOUT the power-of-two rescaling of the direction that /repo commit 36e7d06
+   (fixes/C18-projection-extreme-lengths.diff) performs before normalising: over the reals that step is the identity on
+   the result (C18_projection_ignores_direction_length below). What it repairs - overflow / underflow of the squared
+   norm in binary64 for |direction| outside about [1e-150, 1e150] - is invisible to any real-number theorem; that part
+   of "any non-zero length" is judged by the correspondence and the oracle on the proj_*_extreme stream and the pinned
+   corpus cases (defect fixed, see known_findings/C18.json `fixed`). *)
 From Coq Require Import ZArith Reals Lra List Bool.
 From PW Require Import Num NumR Vec NpList Result.
 From PW.model Require Import M_line M_line_spec.
@@ -23,6 +25,12 @@ Theorem C18_projection_on_line_residual_perp_closest : forall p ref a, a <> v0 -
     vdot ROps (vsub ROps p x) a = 0 /\
     forall s, vnorm2 ROps (vsub ROps p x) <= vnorm2 ROps (vsub ROps p (line_pt ref a s)).
 Proof. exact project_spec. Qed.
+
+(* the projection does not depend on the length of the direction vector: the rescaling done by the code before it
+   normalises (commit 36e7d06) does not change the modelled result *)
+Theorem C18_projection_ignores_direction_length : forall p ref a c, 0 < c ->
+  project_point_to_line ROps p ref (vscale ROps c a) = project_point_to_line ROps p ref a.
+Proof. exact project_scale_invariant. Qed.
 
 (* Line rejects a zero direction; an accepted line stores point and direction; from_points / reference_points *)
 Theorem C18_line_rejects_zero_direction : forall p,
@@ -124,7 +132,7 @@ Proof.
   rewrite (proj2 (Rleb_false 2 _)) by lra. reflexivity.
 Qed.
 
-Definition C18_all := (C18_projection_on_line_residual_perp_closest, C18_projection_stacked_is_rowwise,
+Definition C18_all := (C18_projection_on_line_residual_perp_closest, C18_projection_ignores_direction_length, C18_projection_stacked_is_rowwise,
   C18_line_rejects_zero_direction, C18_line_accepts_iff, C18_line_accepts_any_nonzero_direction_refuted,
   C18_from_points_intersect, C18_line_methods_delegate, C18_returned_point_on_both_lines,
   C18_intersect_lines_complete, C18_intersect_2d_spec).
